@@ -33,6 +33,14 @@ def fmtD (z : Int) : Bytes := if z < 0 then 45 :: decNat z.natAbs else decNat z.
 /-- `printf("%s=%s")` -/
 def fmtSS (x y : Bytes) : Bytes := x ++ 61 :: y
 
+/-- `printf` with a format made of literal bytes, `%%` and `%s` (every `%s` shows `arg`; the
+    harness uses at most one) -/
+def fmtExpand (arg : Bytes) : Bytes → Bytes
+  | 37 :: 37 :: t => 37 :: fmtExpand arg t
+  | 37 :: 115 :: t => arg ++ fmtExpand arg t
+  | c :: t => c :: fmtExpand arg t
+  | [] => []
+
 /-! ### character classes of <ctype.h> in the C locale (bytes ≥ 0x80 belong to none) -/
 
 def isDigitB (c : UInt8) : Bool := 48 ≤ c && c ≤ 57
